@@ -153,6 +153,16 @@ def run_case(ck, desc):
     if not ck.margin("objective zero at the generating parameters", float(np.max(np.abs(r0))) / M, 1e-12):
         ck.violation("zero-at-truth", {"max_abs/M": float(np.max(np.abs(r0))) / M, "nodes_seen": NODES[-1:]}, desc)
     ck.count("truth_evaluations")
+    # the same parameters with ANOTHER fluid table in the same process: the objective must follow
+    # the table it is given (no state carried over from the previous evaluation)
+    other = tables.shipped("pvt_gas" if desc["table"] == "haynesville" else "haynesville")
+    with warnings.catch_warnings(), np.errstate(all="ignore"):
+        warnings.simplefilter("ignore")
+        r1 = np.asarray(fpm._obj_function(truth, days, np.cumsum(gas), other, pf), dtype=float)
+    want1 = M * _forward(other, p_i, tau, days, pf, NODES[-1] if NODES else nodes) - np.cumsum(gas)
+    if not ck.margin("objective follows the table it is given", float(np.max(np.abs(r1 - want1))) / M, 1e-12):
+        ck.violation("objective-uses-forward-model", {"second_table_same_p_initial": True, "rel": float(np.max(np.abs(r1 - want1))) / M}, desc)
+    ck.count("second_table_evaluations")
 
     # ---- a real fit on a table with zero-rate days and missing pressures ------------------
     gas_obs = gas.copy()
@@ -199,7 +209,10 @@ def run_case(ck, desc):
         ck.violation("filtered-rows-reindexed", {"n_seen": len(e0["days"]), "n_expected": len(want_days), "first": e0["days"][:3]}, desc)
     elif not np.allclose(e0["production"], want_cum, rtol=1e-13, atol=0):
         ck.violation("cumulative-production-of-kept-rows", {"max_rel": float(np.max(np.abs(e0["production"] - want_cum) / np.abs(want_cum)))}, desc)
-    elif desc["window"] in (None, 1) and not np.array_equal(e0["pf"], want_p):
+    elif desc["window"] is None and not np.array_equal(e0["pf"], want_p):
+        ck.violation("pressures-of-kept-rows", {"max_abs": float(np.nanmax(np.abs(e0["pf"] - want_p)))}, desc)
+    elif desc["window"] == 1 and not np.allclose(e0["pf"], want_p, rtol=1e-12, atol=0):
+        # scipy's running-sum box filter of size 1 reproduces its input to 1 ulp, not bit for bit
         ck.violation("window-of-one-leaves-pressures-unchanged", {"window": desc["window"], "max_abs": float(np.nanmax(np.abs(e0["pf"] - want_p)))}, desc)
     ck.count(f"fits.filter={desc['filter']}.window={desc['window']}")
 
